@@ -227,7 +227,7 @@ def writer_vcs(qual: str, relpath: str, w: Optional[Writer], iter_expected: str,
     if w is None:
         return [bvc(qual, "writer", f"{t}loop_present", False, relpath, "writer loop not found (code restructured): obligation open", open_=True)]
     row_norm = row_norm or w.row_norm
-    advance = advance or ("Add:1" if row_norm == w.row_src else f"store:{row_norm} + 1")
+    advance = advance or ("Add:1" if w.row_src.isidentifier() else f"store:{row_norm} + 1")
     out.append(bvc(qual, "writer", f"{t}W1_iterates_{_lab(iter_expected)}", w.iter == iter_expected, f"{relpath}:{w.loop.lineno}", f"iterates {w.iter}"))
     bad_skips = [s for s in w.skips if not (s[0] == "raise" and s[1] and any(g in s[1][-1][0] for g in allow_raise_guards))]
     out.append(bvc(qual, "writer", f"{t}W2_every_element_gets_a_row_no_break_continue_return", not bad_skips, f"{relpath}:{w.loop.lineno}", str(bad_skips)[:300]))
